@@ -10,6 +10,8 @@ structure ExecCase where
   req : List File
   cancel : Bool
   abort : Option Int   -- none: default reporter; some k: abort at k-th error (k<0: never)
+  /-- files that define the shared symbol of a dup group (unrelated files of one package) -/
+  dups : List (File × String) := []
 
 def parseFault : String → Option Fault
   | "resolveerr" => some .resolveErr | "resolvepanic" => some .resolvePanic
@@ -35,10 +37,14 @@ def parseExec (line : String) : Option ExecCase :=
       match ent.splitOn "=" with
       | [f, k] => (parseFault k).map (fun x => (f, x))
       | _ => none)
+    let dups := if fs == "-" then [] else (fs.splitOn ";").filterMap (fun ent =>
+      match ent.splitOn "=" with
+      | [f, k] => if k.startsWith "dup" then some (f, k) else none
+      | _ => none)
     let cancel := (kv ws "cancel").isSome
     let abort := (kv ws "abort") >>= String.toInt?
     pure { w := { files := files, faults := faults, par := par, req := req.splitOn ",", cancelable := cancel },
-           req := req.splitOn ",", cancel := cancel, abort := abort }
+           req := req.splitOn ",", cancel := cancel, abort := abort, dups := dups }
   | _ => none
 
 /-- denotation: `f` compiles successfully iff nothing it reaches is bad or cyclic (fuel DFS) -/
@@ -58,11 +64,18 @@ def reachable (w : World) (f : File) : List File := (reachAux w (w.files.length 
 def hasBits (c : ExecCase) : String :=
   String.join (c.req.map (fun f => if denoteOk c.w f then "1" else "0"))
 
+/-- two distinct reachable files define the same symbol -/
+def dupCollision (c : ExecCase) : Bool :=
+  let reach := (c.req.flatMap (reachable c.w)).eraseDups
+  c.dups.any (fun (f, k) => reach.contains f && c.dups.any (fun (g, k') => g != f && k' == k && reach.contains g))
+
 def execModel (line : String) : String :=
   match parseExec line with
   | none => "bad-op"
   | some c =>
     if c.cancel then "nondet"
+    else if !c.dups.isEmpty then
+      (if dupCollision c || !(c.req.all (denoteOk c.w)) then "err" else "ok")
     else
       let ok := c.req.all (denoteOk c.w)
       s!"{if ok then "ok" else "err"} has={hasBits c}"
@@ -112,6 +125,11 @@ def execSpec (line ans : String) : String :=
     let traceStr := (ans.splitOn " trace=").getD 1 ""
     let evs := (traceStr.splitOn ";").filter (· ≠ "") |>.map parseEv
     if leak != "0" then "fails goroutine-leak" else
+    if !c.dups.isEmpty then
+      -- collision between unrelated files: the outcome must not depend on parallelism / order / schedule
+      (let want := dupCollision c || !(c.req.all (denoteOk c.w))
+       if (status == "err") == want then "holds"
+       else s!"fails outcome status={status} although two unrelated files define the same symbol (collision must be reported at every parallelism and schedule)") else
     if maxrep > 1 then "fails reporter-invoked-concurrently" else
     if evs.any Option.isNone then "fails unparsable-trace-event" else
     let evs := evs.filterMap id
